@@ -47,6 +47,8 @@ EnumValues   == IF "SCHEMA2" \in Devs THEN {"RED"} ELSE {"RED", "GREEN"}
 IntOf(s) == CASE s = "12" -> 12 [] s = "-3" -> 0 - 3 [] s = "7" -> 7 [] OTHER -> 0
 Lower(s) == CASE s = "RED" -> "red" [] s = "GREEN" -> "green" [] OTHER -> s
 
+\* A key "__typename" in an input object is tolerated whatever its value (clients that echo a
+\* response object back as input) and stays in the coerced value; it stands for no field.
 \* input object In: a: Int!   b: [In]   c: E = RED   d: String! = "dflt"   (d has a default: not required)
 FieldNames == <<"a", "b", "c", "d">>
 FieldType(f) == CASE f = "a" -> Named("Int", TRUE)
@@ -93,12 +95,14 @@ Coerce(T, v, top) ==
          IN IF r.ok THEN Ok(VList(<<r.val>>)) ELSE Fail
   ELSE IF T.name = "In" THEN
     IF v.k # "map" THEN Fail
-    ELSE IF \E j \in 1..Len(v.ents) : ~IsField(v.ents[j].key) THEN Fail
+    ELSE IF \E j \in 1..Len(v.ents) : ~IsField(v.ents[j].key) /\ v.ents[j].key # "__typename" THEN Fail
     ELSE LET chk(f) == LET x == Lookup(v.ents, f) IN
                        IF x = <<>> THEN (IF FieldType(f).nn /\ ~HasDefault(f) THEN Fail ELSE Ok(VNull))
                        ELSE Coerce(FieldType(f), x[1], FALSE)
          IN IF \E j \in 1..Len(FieldNames) : ~chk(FieldNames[j]).ok THEN Fail
-            ELSE Ok(VMap([j \in 1..Len(v.ents) |-> Ent(v.ents[j].key, chk(v.ents[j].key).val)]))
+            ELSE Ok(VMap([j \in 1..Len(v.ents) |->
+                            IF v.ents[j].key = "__typename" THEN v.ents[j]      \* tolerated and left as it is
+                            ELSE Ent(v.ents[j].key, chk(v.ents[j].key).val)]))
   ELSE Leaf(T.name, v, top)
 
 (* A variable definition [T, def (<<>> or <<value>>)] and a variables map   *)
@@ -117,7 +121,8 @@ Conforms(T, v) ==
   ELSE IF T.k = "list" THEN v.k = "list" /\ \A j \in 1..Len(v.items) : Conforms(Elem(T), v.items[j])
   ELSE IF T.name = "In" THEN
     /\ v.k = "map"
-    /\ \A j \in 1..Len(v.ents) : IsField(v.ents[j].key) /\ Conforms(FieldType(v.ents[j].key), v.ents[j].v)
+    /\ \A j \in 1..Len(v.ents) : v.ents[j].key = "__typename"
+                                    \/ (IsField(v.ents[j].key) /\ Conforms(FieldType(v.ents[j].key), v.ents[j].v))
     /\ \A j \in 1..Len(FieldNames) :
          (FieldType(FieldNames[j]).nn /\ ~HasDefault(FieldNames[j])) => Lookup(v.ents, FieldNames[j]) # <<>>
   ELSE Leaf(T.name, v, FALSE).ok
